@@ -62,6 +62,7 @@ type c09Env struct {
 	order []int // indices of u sorted by Compare
 	canon []ociauth.Scope
 	text  []ociauth.Scope // built by ParseScope (retains original text)
+	dirty uint32          // elements with empty or separator-bearing fields
 }
 
 func newC09Env(n int) *c09Env {
@@ -71,6 +72,11 @@ func newC09Env(n int) *c09Env {
 		e.order[i] = i
 	}
 	sort.Slice(e.order, func(i, j int) bool { return e.u[e.order[i]].Compare(e.u[e.order[j]]) < 0 })
+	for i, x := range e.u {
+		if !rsClean(x) {
+			e.dirty |= 1 << i
+		}
+	}
 	return e
 }
 
@@ -204,6 +210,11 @@ func (e *c09Env) checkScope(r *vcore.Run, s ociauth.Scope, want uint32, route st
 			}
 		}
 	})
+}
+
+// cleanMask: every field of every element is non-empty and free of separators.
+func (e *c09Env) cleanMask(m uint32) bool {
+	return m&e.dirty == 0
 }
 
 func (e *c09Env) diffLen(want uint32, n int) string {
@@ -418,6 +429,12 @@ func (e *c09Env) checkPair(r *vcore.Run, a, b uint32) {
 		}
 		if u.Len() != bits.OnesCount32(a|b) {
 			r.Violate("pair", "C09/Union/Len", lazy(), fmt.Sprint(bits.OnesCount32(a|b)), fmt.Sprint(u.Len()))
+		}
+		// the text of a union result describes the union (print -> parse round trip, clean fields only)
+		if e.cleanMask(a | b) {
+			if pm, _ := e.observe(ociauth.ParseScope(u.String())); pm != a|b {
+				r.Violate("pair", fmt.Sprintf("C09/Union/text-of-result-is-not-the-union/variant=%d", variant), lazy(), e.names(a|b), fmt.Sprintf("text %q parses to %s", u.String(), e.names(pm)))
+			}
 		}
 	}
 	if got := sa.Contains(sb); got != (b&^a == 0) {
